@@ -23,3 +23,29 @@ Proof.
   induction Nbfun as [|n IH]; simpl; [intros []|]. intros H. apply in_app_or in H. destruct H as [H|H]; [|now apply IH].
   apply in_seq in H. lia.
 Qed.
+
+(* restricted basis (tind given): the regenerated column map sends every located global cell to a position of tind that
+   holds it, fails when a located cell is not in tind, and probes_spec holds with the dofs of the located global cell *)
+Lemma gen_probe_restrict_spec : forall nelems ti cells cells',
+    gen_probe_restrict nelems (Some ti) cells = Some cells' ->
+    Forall2 (fun c c' => (c' < length ti)%nat /\ nth c' ti 0%nat = c) cells cells'.
+Proof. intros. now apply restrict_cells_spec with (nelems := nelems). Qed.
+
+Lemma gen_probe_restrict_outside : forall nelems ti cells c,
+    In c cells -> ~ In c ti -> gen_probe_restrict nelems (Some ti) cells = None.
+Proof. intros. now apply restrict_cells_outside with (c := c). Qed.
+
+Lemma gen_probe_unrestricted : forall nelems cells, gen_probe_restrict nelems None cells = Some cells.
+Proof. reflexivity. Qed.
+
+Lemma gen_probes_spec_restricted : forall (edofs : list (list nat)) (nelems : nat) (ti cells cells' : list nat)
+    (comp : nat) (phi : nat -> nat -> nat -> Q) (y : nat -> Q) (r : nat),
+    gen_probe_restrict nelems (Some ti) cells = Some cells' -> (0 < length cells)%nat -> (r < comp * length cells)%nat ->
+    coo_apply (gen_probe_rows (length edofs) comp (length cells)) (gen_probe_cols (restrict_edofs edofs ti) cells' comp)
+              (gen_probe_vals (length edofs) comp (length cells) phi) y r
+    == qsum (map (fun k => phi k (r / length cells)%nat (r mod length cells)%nat
+                           * y (nth (nth (r mod length cells) cells 0%nat) (nth k edofs []) 0%nat)) (seq 0 (length edofs))).
+Proof.
+  intros edofs nelems ti cells cells' comp phi y r Hr Hn Hlt. unfold gen_probe_rows, gen_probe_cols, gen_probe_vals.
+  exact (probes_spec_restricted edofs nelems ti cells cells' comp phi y r Hr Hn Hlt).
+Qed.
